@@ -499,7 +499,7 @@ func (tr *Tracer) generalise(st *state, f *frame, h, from *ssa.BasicBlock) {
 		if r.Kind != KAlloc && tr.keepOnHavoc(st, c.addr) {
 			continue
 		}
-		nv := st.fresh("loopmem", symValType(c.val), nil)
+		nv := st.later(c.addr, symValType(c.val))
 		// candidate invariant: the cell held the same constant on first entry and now at the back edge
 		if snap := f.loopSnap[h]; snap != nil {
 			if c0, ok := snap[k]; ok && !tr.badInv[blockID(h)+k] {
